@@ -285,12 +285,13 @@ func (p *Parser) IfStatement() (ast.Stmt, error) {
 }
 
 func (p *Parser) printStatement() (ast.Stmt, error) {
+	keyword := p.previous()
 	value, err := p.expression()
 	if err != nil {
 		return nil, err
 	}
 	p.consume(token.SEMICOLON, "Expect ';' after value.")
-	return &ast.PrintStatement{Expression: value}, nil
+	return &ast.PrintStatement{Expression: value, Line: keyword.Line}, nil
 }
 
 func (p *Parser) returnStatement() (ast.Stmt, error) {
@@ -314,12 +315,13 @@ func (p *Parser) returnStatement() (ast.Stmt, error) {
 }
 
 func (p *Parser) expressionStatement() (ast.Stmt, error) {
+	line := p.peek().Line
 	value, err := p.expression()
 	if err != nil {
 		return nil, err
 	}
 	p.consume(token.SEMICOLON, "Expect ';' after value.")
-	return &ast.ExpressionStatement{Expression: value}, nil
+	return &ast.ExpressionStatement{Expression: value, Line: line}, nil
 }
 
 func (p *Parser) function(kind string) (ast.Stmt, error) {
